@@ -120,7 +120,7 @@ quick: no
 */
 /*@unit
 name: str_splice.negcnt
-define: VP=str, VSTR_INST=0, VSTR_OWN_MEMCPY, VSTR_OWN_REALLOC, U_SPLICE, U_NONEMPTY, U_NEGCNT, U_ENS_ACCEPT
+define: VP=str, VSTR_INST=2, VSTR_OWN_MEMCPY, VSTR_OWN_REALLOC, U_SPLICE, U_NONEMPTY, U_NEGCNT, U_ENS_ACCEPT
 src: str.c, obj.c
 enforce: spif_str_splice
 backend: kissat,sat
@@ -200,7 +200,7 @@ quick: no
 */
 /*@unit
 name: str_splice_from_ptr.negcnt
-define: VP=str, VSTR_INST=0, VSTR_OWN_MEMCPY, VSTR_OWN_REALLOC, U_SPLICE_FROM_PTR, U_NONEMPTY, U_NEGCNT, U_ENS_ACCEPT
+define: VP=str, VSTR_INST=2, VSTR_OWN_MEMCPY, VSTR_OWN_REALLOC, U_SPLICE_FROM_PTR, U_NONEMPTY, U_NEGCNT, U_ENS_ACCEPT
 src: str.c, obj.c
 enforce: spif_str_splice_from_ptr
 backend: kissat,sat
@@ -318,7 +318,7 @@ quick: no
 */
 /*@unit
 name: ustr_splice.negcnt
-define: VP=ustr, VSTR_INST=0, VSTR_OWN_MEMCPY, VSTR_OWN_REALLOC, U_SPLICE, U_NONEMPTY, U_NEGCNT, U_ENS_ACCEPT
+define: VP=ustr, VSTR_INST=2, VSTR_OWN_MEMCPY, VSTR_OWN_REALLOC, U_SPLICE, U_NONEMPTY, U_NEGCNT, U_ENS_ACCEPT
 src: ustr.c, obj.c
 enforce: spif_ustr_splice
 backend: kissat,sat
@@ -401,7 +401,7 @@ quick: no
 */
 /*@unit
 name: ustr_splice_from_ptr.negcnt
-define: VP=ustr, VSTR_INST=0, VSTR_OWN_MEMCPY, VSTR_OWN_REALLOC, U_SPLICE_FROM_PTR, U_NONEMPTY, U_NEGCNT, U_ENS_ACCEPT
+define: VP=ustr, VSTR_INST=2, VSTR_OWN_MEMCPY, VSTR_OWN_REALLOC, U_SPLICE_FROM_PTR, U_NONEMPTY, U_NEGCNT, U_ENS_ACCEPT
 src: ustr.c, obj.c
 enforce: spif_ustr_splice_from_ptr
 backend: kissat,sat
